@@ -1,5 +1,5 @@
 // auto-generated: "lalrpop 0.23.1"
-// sha3: 93b592c1cc13634bf05e1ea6ffde689a366c41af131c607d8b6e08a25e536316
+// sha3: d2871cf8c3ec3fb045449b48e9725855de55b016679bfd37cbcddc3adca1057c
 #[allow(unused_extern_crates)]
 extern crate lalrpop_util as __lalrpop_util;
 #[allow(unused_imports)]
@@ -653,7 +653,7 @@ fn __action2<
     (_, __0, _): (usize, &'input str, usize),
 ) -> String
 {
-    { let (x, y) = (b'}' as char.to_string(), 'é'.to_string()); x + &y }
+    { let (x, y) = ((b'}' as char).to_string(), 'é'.to_string()); x + &y }
 }
 
 #[allow(unused_variables)]
